@@ -245,3 +245,34 @@ def carry_continuity_rule(prog, chk, rule, functions, floor=1):
                            loc=f.loc(o[1]), detail="" if ok else "the next carry does not depend on the incoming carry: a carry / borrow "
                            "arriving at a byte position is dropped", key="%s %s" % (rule, name))
     chk.floor(rule, "loop-carried carries examined", n, floor)
+
+
+def or_packing_rule(prog, chk, rule, unit_prefixes, floor=1):
+    """limbs are combined with `|` only when the two operands are provably bit-disjoint (E12): `(hi << k) | lo` equals
+    `(hi << k) + lo` only if lo < 2^k, and a loosely reduced limb (the output of a carry pass that stops early) is not"""
+    tot = 0
+    for f in prog.functions():
+        if f.decl or not f.unit.startswith(tuple(unit_prefixes)):
+            continue
+        zero = None
+        for i, ins in enumerate(f.insts):
+            if ins["op"] != "or" or ins.get("ty", "").startswith("<"):
+                continue
+            b = _bits(ins.get("ty", ""))
+            ops = ins["ops"]
+            if not b or not any(o[0] == "v" and f.insts[o[1]]["op"] == "shl" and f.insts[o[1]]["ops"][1][0] == "i" for o in ops):
+                continue
+            tot += 1
+            if zero is None:
+                zero = analyse(f)
+            full = (1 << b) - 1
+
+            def ones(o):
+                if o[0] == "i" and isinstance(o[1], int):
+                    return o[1] & full
+                return full & ~(zero.get(o[1], 0) if o[0] == "v" else 0)
+            ov = ones(ops[0]) & ones(ops[1])
+            chk.ob(rule, f, "`|` at %s combines provably bit-disjoint operands" % f.loc(i), not ov, loc=f.loc(i),
+                   detail="" if not ov else "both operands may have bits %s set: `(hi << k) | lo` drops a pending carry in lo that "
+                   "`(hi << k) + lo` would propagate" % hex(ov), key="%s %s or-packing" % (rule, f.sname))
+    chk.floor(rule, "shift-and-or limb / word packings examined", tot, floor)
